@@ -58,10 +58,10 @@ def run(ctx):
     # run exports the cases)
     cases = ctx.path("cases.ndjson")
     if not present:
-        g = ctx.tlc(sd, "MC_Genesis", cfg("r1.cfg", log="LogAppend", rest="INVARIANTS Inv_C47_AcceptedOnlyIfRequired\nACTION_CONSTRAINT Emit"),
+        g = r1 = ctx.tlc(sd, "MC_Genesis", cfg("r1.cfg", log="LogAppend", rest="INVARIANTS Inv_C47_AcceptedOnlyIfRequired\nACTION_CONSTRAINT Emit"),
                     timeout=1500, behaviours_out=cases, coverage=not quick)
     else:
-        ctx.tlc(sd, "MC_Genesis", cfg("r1.cfg", rest="INVARIANTS Inv_C47_AcceptedOnlyIfRequired"), timeout=1500, coverage=not quick)
+        r1 = ctx.tlc(sd, "MC_Genesis", cfg("r1.cfg", rest="INVARIANTS Inv_C47_AcceptedOnlyIfRequired"), timeout=1500, coverage=not quick)
         # model of the code that exists: TLC must find the counterexample ...
         r = ctx.tlc(sd, "MC_Genesis", cfg("r1c.cfg", modes="ModesCex", defects=dq, rest="INVARIANTS Inv_C47_AcceptedOnlyIfRequired"),
                     timeout=600, allow=("invariant",), count=False)
@@ -74,6 +74,8 @@ def run(ctx):
                     timeout=1500, behaviours_out=cases, count=False)
     if g.ok and g.behaviours == 0:
         ctx.broken.append("case export produced nothing")
+    if not quick and r1.coverage_zero:
+        ctx.broken.append("vacuity guard: actions never taken in R1: %s" % r1.coverage_zero)
     h = ctx.vh(exe, ["replay", cases, work], timeout=3000)
     ctx.cov(traces_validated_against_impl=int(h.stats.get("cases", 0)), evaluations=int(h.stats.get("cases", 0)),
             distinct_nontrivial=int(h.stats.get("distinct_not_required", 0)),
